@@ -1,28 +1,80 @@
 package main
 
-// Environment model: sdk.Context, KV stores, codec, bank. (filled in env_store.go)
+// Environment model: sdk.Context, KV stores (ordered maps over symbolic byte keys), codec as
+// identity on typed values (with the gogoproto round-trip normalisation), logger / events / gas.
+
+import (
+	"fmt"
+	"go/types"
+	"math/big"
+	"sort"
+)
+
+var nativeType = types.NewNamed(types.NewTypeName(0, nil, "symxNative", nil), types.NewStruct(nil, nil), nil)
+
+func nativeIface(o interface{}) IfaceV { return IfaceV{T: nativeType, V: o} }
 
 type EnvState struct {
-	ex *Exec
+	ex        *Exec
+	storeKeys map[string]*StoreKeyObj
+	root      *MultiStore
 }
 
-func newEnvState(ex *Exec) *EnvState { return &EnvState{ex: ex} }
+func newEnvState(ex *Exec) *EnvState {
+	return &EnvState{ex: ex, storeKeys: map[string]*StoreKeyObj{}, root: &MultiStore{stores: map[string]*Store{}}}
+}
+
+type StoreKeyObj struct{ Name string }
+
+func (k *StoreKeyObj) Invoke(ex *Exec, m string, a []Val) Val {
+	switch m {
+	case "Name":
+		return ex.mkStr(k.Name)
+	case "String":
+		return ex.mkStr("KVStoreKey{" + k.Name + "}")
+	}
+	ex.unmodelled("StoreKey." + m)
+	return nil
+}
 
 type CtxV struct {
 	ms       *MultiStore
-	height   *Term
-	time     *Term
+	height   *Term // BV64
+	time     *Term // Int nanos
 	chainID  string
 	checkTx  bool
 	recheck  bool
-	simulate bool
-	values   map[string]Val
-	extra    map[string]Val
+	txBytes  Val
+	gas      *GasMeterObj
+	blockGas *GasMeterObj
+	priority *Term
+	values   []ctxKV
+	minGas   Val
+	events   *EventMgrObj
+	header   Val
 }
+
+type ctxKV struct{ k, v Val }
 
 type MultiStore struct {
 	stores map[string]*Store
-	parent *MultiStore
+}
+
+func (ms *MultiStore) get(name string) *Store {
+	s, ok := ms.stores[name]
+	if !ok {
+		s = &Store{}
+		ms.stores[name] = s
+	}
+	return s
+}
+
+func (ms *MultiStore) clone() *MultiStore {
+	n := &MultiStore{stores: map[string]*Store{}}
+	for k, s := range ms.stores {
+		n.stores[k] = &Store{entries: append([]storeEntry{}, s.entries...)}
+	}
+	return n
 }
 
 type Store struct {
@@ -31,10 +83,674 @@ type Store struct {
 
 type storeEntry struct {
 	key []*Term
-	val Val
+	val Val // BytesVal or BlobV
 }
 
+// BytesVal: immutable raw bytes stored in a KV store
+type BytesVal struct{ B []*Term }
+
+// StoreHandle: a KVStore view = underlying store + key prefix
+type StoreHandle struct {
+	ms     *MultiStore
+	name   string
+	prefix []*Term
+}
+
+func (h *StoreHandle) st() *Store { return h.ms.get(h.name) }
+
+func (h *StoreHandle) fullKey(ex *Exec, k Val) []*Term {
+	kb := ex.bytesOf(k)
+	if sv, ok := k.(SliceV); ok && sv.Nil {
+		kb = nil
+	}
+	if len(kb) == 0 {
+		ex.goPanic("key is nil or empty")
+	}
+	out := make([]*Term, 0, len(h.prefix)+len(kb))
+	out = append(out, h.prefix...)
+	out = append(out, kb...)
+	return out
+}
+
+func (ex *Exec) storeValToVal(v Val) Val {
+	switch x := v.(type) {
+	case BytesVal:
+		return ex.mkBytes(x.B)
+	}
+	return v
+}
+
+func (h *StoreHandle) find(ex *Exec, key []*Term) int {
+	st := h.st()
+	for i := range st.entries {
+		if ex.Branch(ex.bytesEq(st.entries[i].key, key)) {
+			return i
+		}
+	}
+	return -1
+}
+
+func (h *StoreHandle) Invoke(ex *Exec, m string, a []Val) Val {
+	switch m {
+	case "Get":
+		i := h.find(ex, h.fullKey(ex, a[0]))
+		if i < 0 {
+			return SliceV{Nil: true}
+		}
+		return ex.storeValToVal(h.st().entries[i].val)
+	case "Has":
+		return ex.tf.Bool(h.find(ex, h.fullKey(ex, a[0])) >= 0)
+	case "Set":
+		key := h.fullKey(ex, a[0])
+		var v Val
+		switch x := a[1].(type) {
+		case BlobV:
+			v = x
+		case SliceV:
+			if x.Nil {
+				ex.goPanic("value is nil")
+			}
+			v = BytesVal{B: append([]*Term{}, ex.bytesOf(x)...)}
+		default:
+			panic(engineErr(fmt.Sprintf("store.Set value %T", a[1])))
+		}
+		i := h.find(ex, key)
+		st := h.st()
+		if i >= 0 {
+			ne := append([]storeEntry{}, st.entries...)
+			ne[i] = storeEntry{key: key, val: v}
+			st.entries = ne
+		} else {
+			st.entries = append(append([]storeEntry{}, st.entries...), storeEntry{key: key, val: v})
+		}
+		return nil
+	case "Delete":
+		key := h.fullKey(ex, a[0])
+		i := h.find(ex, key)
+		if i >= 0 {
+			st := h.st()
+			ne := append([]storeEntry{}, st.entries[:i]...)
+			ne = append(ne, st.entries[i+1:]...)
+			st.entries = ne
+		}
+		return nil
+	case "Iterator", "ReverseIterator":
+		var start, end []*Term
+		if s, ok := a[0].(SliceV); ok && !s.Nil {
+			start = ex.bytesOf(s)
+		}
+		hasEnd := false
+		if s, ok := a[1].(SliceV); ok && !s.Nil {
+			end = ex.bytesOf(s)
+			hasEnd = true
+		}
+		it := h.iterate(ex, start, end, hasEnd)
+		if m == "ReverseIterator" {
+			for i, j := 0, len(it.items)-1; i < j; i, j = i+1, j-1 {
+				it.items[i], it.items[j] = it.items[j], it.items[i]
+			}
+		}
+		return nativeIface(it)
+	case "GetStoreType":
+		return ex.tf.BVu(0, 64)
+	}
+	ex.unmodelled("KVStore." + m)
+	return nil
+}
+
+type IterObj struct {
+	items  []storeEntry // keys relative to the handle's prefix
+	i      int
+	closed bool
+}
+
+// iterate: entries with the handle's prefix and start <= relkey < end, in lexicographic order.
+func (h *StoreHandle) iterate(ex *Exec, start, end []*Term, hasEnd bool) *IterObj {
+	st := h.st()
+	var items []storeEntry
+	for _, e := range st.entries {
+		if len(e.key) < len(h.prefix) {
+			continue
+		}
+		if !ex.Branch(ex.hasPrefix(e.key, h.prefix)) {
+			continue
+		}
+		rel := e.key[len(h.prefix):]
+		if len(start) > 0 {
+			if ex.Branch(ex.bytesLt(rel, start)) {
+				continue
+			}
+		}
+		if hasEnd {
+			if !ex.Branch(ex.bytesLt(rel, end)) {
+				continue
+			}
+		}
+		items = append(items, storeEntry{key: rel, val: e.val})
+	}
+	// sort by key; concrete keys sort natively, symbolic comparisons fork
+	allConc := true
+	for _, it := range items {
+		if _, ok := concreteBytes(it.key); !ok {
+			allConc = false
+			break
+		}
+	}
+	if allConc {
+		sort.SliceStable(items, func(i, j int) bool {
+			a, _ := concreteBytes(items[i].key)
+			b, _ := concreteBytes(items[j].key)
+			return a < b
+		})
+	} else {
+		for i := 1; i < len(items); i++ {
+			j := i
+			for j > 0 && ex.Branch(ex.bytesLt(items[j].key, items[j-1].key)) {
+				items[j], items[j-1] = items[j-1], items[j]
+				j--
+			}
+		}
+	}
+	return &IterObj{items: items}
+}
+
+func (it *IterObj) Invoke(ex *Exec, m string, a []Val) Val {
+	switch m {
+	case "Valid":
+		return ex.tf.Bool(it.i < len(it.items))
+	case "Next":
+		if it.i >= len(it.items) {
+			ex.goPanic("iterator Next on invalid iterator")
+		}
+		it.i++
+		return nil
+	case "Key":
+		if it.i >= len(it.items) {
+			ex.goPanic("iterator Key on invalid iterator")
+		}
+		return ex.mkBytes(it.items[it.i].key)
+	case "Value":
+		if it.i >= len(it.items) {
+			ex.goPanic("iterator Value on invalid iterator")
+		}
+		return ex.storeValToVal(it.items[it.i].val)
+	case "Close":
+		it.closed = true
+		return IfaceV{}
+	case "Error":
+		return IfaceV{}
+	case "Domain":
+		return TupleV{SliceV{Nil: true}, SliceV{Nil: true}}
+	}
+	ex.unmodelled("Iterator." + m)
+	return nil
+}
+
+// prefixEnd mirrors sdk.PrefixEndBytes / storetypes.PrefixEndBytes for concrete prefixes
+func prefixEndConcrete(p string) (string, bool) {
+	b := []byte(p)
+	for len(b) > 0 {
+		if b[len(b)-1] != 0xff {
+			b[len(b)-1]++
+			return string(b), true
+		}
+		b = b[:len(b)-1]
+	}
+	return "", false
+}
+
+// ---------- codec ----------
+
+type CodecObj struct{}
+
+func (c *CodecObj) Invoke(ex *Exec, m string, a []Val) Val {
+	switch m {
+	case "MustMarshal", "Marshal", "MustMarshalLengthPrefixed", "MarshalInterface":
+		var tv Val
+		var typ types.Type
+		switch x := a[0].(type) {
+		case IfaceV:
+			if x.T == nil {
+				ex.goPanic("marshal of nil message")
+			}
+			typ = x.T
+			p, ok := x.V.(PtrV)
+			if !ok {
+				ex.unmodelled("marshal of non-pointer message")
+			}
+			if p.C == nil {
+				ex.goPanic("marshal of nil pointer message")
+			}
+			tv = ex.freeze(ex.load(p))
+		default:
+			panic(engineErr(fmt.Sprintf("codec.Marshal arg %T", a[0])))
+		}
+		b := BlobV{V: tv, Typ: typ}
+		if m == "Marshal" || m == "MarshalInterface" {
+			return TupleV{b, IfaceV{}}
+		}
+		return b
+	case "MustUnmarshal", "Unmarshal", "MustUnmarshalLengthPrefixed":
+		iv := a[1].(IfaceV)
+		p, ok := iv.V.(PtrV)
+		if !ok || p.C == nil {
+			ex.goPanic("unmarshal into nil")
+		}
+		switch b := a[0].(type) {
+		case BlobV:
+			if !types.Identical(b.Typ, iv.T) {
+				ex.unmodelled(fmt.Sprintf("unmarshal type confusion: stored %s read as %s", b.Typ, iv.T))
+			}
+			ex.store(p, ex.thaw(b.V))
+		case SliceV:
+			if b.Nil || b.Len == 0 {
+				// empty bytes decode to the zero message (fields keep their current values)
+			} else {
+				ex.unmodelled("unmarshal of raw bytes")
+			}
+		default:
+			panic(engineErr(fmt.Sprintf("codec.Unmarshal arg %T", a[0])))
+		}
+		if m == "Unmarshal" {
+			return IfaceV{}
+		}
+		return nil
+	case "InterfaceRegistry":
+		return nativeIface(&OpaqueObj{"InterfaceRegistry"})
+	}
+	ex.unmodelled("codec." + m)
+	return nil
+}
+
+type OpaqueObj struct{ Tag string }
+
+func (o *OpaqueObj) Invoke(ex *Exec, m string, a []Val) Val {
+	ex.unmodelled("method " + m + " on opaque " + o.Tag)
+	return nil
+}
+
+// ---------- logger / events / gas ----------
+
+type LoggerObj struct{}
+
+func (l *LoggerObj) Invoke(ex *Exec, m string, a []Val) Val {
+	if m == "With" {
+		return nativeIface(l)
+	}
+	return nil
+}
+
+type EventMgrObj struct{ n int }
+
+type GasMeterObj struct {
+	limit    *Term // BV64
+	consumed *Term
+	infinite bool
+}
+
+func (g *GasMeterObj) Invoke(ex *Exec, m string, a []Val) Val {
+	tf := ex.tf
+	switch m {
+	case "GasConsumed", "GasConsumedToLimit":
+		return g.consumed
+	case "Limit":
+		return g.limit
+	case "GasRemaining":
+		if g.infinite {
+			return tf.BVConst(mask(64), 64)
+		}
+		return tf.BVSub(g.limit, g.consumed)
+	case "ConsumeGas":
+		amt := a[0].(*Term)
+		nc := tf.BVAdd(g.consumed, amt)
+		// overflow
+		if ex.Branch(tf.BVUlt(nc, g.consumed)) {
+			ex.goPanic("gas overflow (ErrorGasOverflow)")
+		}
+		g.consumed = nc
+		if !g.infinite {
+			if ex.Branch(tf.BVUlt(g.limit, nc)) {
+				ex.goPanic("out of gas (ErrorOutOfGas)")
+			}
+		}
+		return nil
+	case "RefundGas":
+		amt := a[0].(*Term)
+		if ex.Branch(tf.BVUlt(g.consumed, amt)) {
+			ex.goPanic("negative gas consumed (ErrorNegativeGasConsumed)")
+		}
+		g.consumed = tf.BVSub(g.consumed, amt)
+		return nil
+	case "IsPastLimit":
+		if g.infinite {
+			return tf.F
+		}
+		return tf.BVUlt(g.limit, g.consumed)
+	case "IsOutOfGas":
+		if g.infinite {
+			return tf.F
+		}
+		return tf.BVUle(g.limit, g.consumed)
+	case "String":
+		return StrV{Opaque: true, Tag: "gasmeter"}
+	}
+	ex.unmodelled("GasMeter." + m)
+	return nil
+}
+
+// ---------- context intrinsics ----------
+
+func (ex *Exec) ctxArg(v Val) *CtxV {
+	c, ok := v.(*CtxV)
+	if !ok {
+		panic(engineErr(fmt.Sprintf("expected sdk.Context, got %T", v)))
+	}
+	if c.ms == nil {
+		// zero Context
+		c = &CtxV{ms: ex.env.root, height: ex.tf.BVu(0, 64), time: ex.tf.IntConst(zeroTimeNanos)}
+	}
+	return c
+}
+
+func (c *CtxV) with(f func(n *CtxV)) *CtxV {
+	n := *c
+	f(&n)
+	return &n
+}
+
+func init() {
+	const C = "(github.com/cosmos/cosmos-sdk/types.Context)."
+	reg(rtPkg+"StoreKey", func(ex *Exec, a []Val) Val {
+		name := ex.argStr(a[0], "store key name")
+		k, ok := ex.env.storeKeys[name]
+		if !ok {
+			k = &StoreKeyObj{Name: name}
+			ex.env.storeKeys[name] = k
+		}
+		return nativeIface(k)
+	})
+	reg(rtPkg+"Codec", func(ex *Exec, a []Val) Val { return nativeIface(&CodecObj{}) })
+	reg(rtPkg+"NewContext", func(ex *Exec, a []Val) Val {
+		// NewContext(height int64, unixNanos sdkmath.Int-free: time as int64 seconds, chainID string)
+		h := a[0].(*Term)
+		secs := ex.tf.BV2Int(a[1].(*Term), true)
+		chain := ex.argStr(a[2], "chain id")
+		return &CtxV{ms: ex.env.root, height: h, time: ex.tf.IMul(secs, ex.tf.Inti(1000000000)), chainID: chain,
+			gas: &GasMeterObj{infinite: true, limit: ex.tf.BVu(0, 64), consumed: ex.tf.BVu(0, 64)}, events: &EventMgrObj{}}
+	})
+	reg(C+"KVStore", func(ex *Exec, a []Val) Val {
+		c := ex.ctxArg(a[0])
+		kv, ok := a[1].(IfaceV)
+		if !ok || kv.T == nil {
+			ex.goPanic("KVStore with nil key")
+		}
+		k, ok := kv.V.(*StoreKeyObj)
+		if !ok {
+			ex.unmodelled("KVStore with foreign store key")
+		}
+		return nativeIface(&StoreHandle{ms: c.ms, name: k.Name})
+	})
+	intrinsics[C+"TransientStore"] = intrinsics[C+"KVStore"]
+	reg(C+"BlockHeight", func(ex *Exec, a []Val) Val { return ex.ctxArg(a[0]).height })
+	reg(C+"BlockTime", func(ex *Exec, a []Val) Val { return TimeV{T: ex.ctxArg(a[0]).time} })
+	reg(C+"ChainID", func(ex *Exec, a []Val) Val { return ex.mkStr(ex.ctxArg(a[0]).chainID) })
+	reg(C+"IsCheckTx", func(ex *Exec, a []Val) Val { return ex.tf.Bool(ex.ctxArg(a[0]).checkTx) })
+	reg(C+"IsReCheckTx", func(ex *Exec, a []Val) Val { return ex.tf.Bool(ex.ctxArg(a[0]).recheck) })
+	reg(C+"Logger", func(ex *Exec, a []Val) Val { return nativeIface(&LoggerObj{}) })
+	reg(C+"EventManager", func(ex *Exec, a []Val) Val {
+		c := ex.ctxArg(a[0])
+		if c.events == nil {
+			c.events = &EventMgrObj{}
+		}
+		return PtrV{C: ex.newCell(c.events)}
+	})
+	reg(C+"GasMeter", func(ex *Exec, a []Val) Val {
+		c := ex.ctxArg(a[0])
+		if c.gas == nil {
+			c.gas = &GasMeterObj{infinite: true, limit: ex.tf.BVu(0, 64), consumed: ex.tf.BVu(0, 64)}
+		}
+		return nativeIface(c.gas)
+	})
+	reg(C+"BlockGasMeter", func(ex *Exec, a []Val) Val {
+		c := ex.ctxArg(a[0])
+		if c.blockGas == nil {
+			return IfaceV{}
+		}
+		return nativeIface(c.blockGas)
+	})
+	reg(C+"TxBytes", func(ex *Exec, a []Val) Val {
+		c := ex.ctxArg(a[0])
+		if c.txBytes == nil {
+			return SliceV{Nil: true}
+		}
+		return c.txBytes
+	})
+	reg(C+"Priority", func(ex *Exec, a []Val) Val {
+		c := ex.ctxArg(a[0])
+		if c.priority == nil {
+			return ex.tf.BVu(0, 64)
+		}
+		return c.priority
+	})
+	reg(C+"MinGasPrices", func(ex *Exec, a []Val) Val {
+		c := ex.ctxArg(a[0])
+		if c.minGas == nil {
+			return SliceV{Nil: true}
+		}
+		return c.minGas
+	})
+	reg(C+"Context", func(ex *Exec, a []Val) Val { return nativeIface(ex.ctxArg(a[0])) })
+	reg(C+"WithBlockHeight", func(ex *Exec, a []Val) Val {
+		return ex.ctxArg(a[0]).with(func(n *CtxV) { n.height = a[1].(*Term) })
+	})
+	reg(C+"WithBlockTime", func(ex *Exec, a []Val) Val {
+		return ex.ctxArg(a[0]).with(func(n *CtxV) { n.time = a[1].(TimeV).T })
+	})
+	reg(C+"WithChainID", func(ex *Exec, a []Val) Val {
+		s := ex.argStr(a[1], "chain id")
+		return ex.ctxArg(a[0]).with(func(n *CtxV) { n.chainID = s })
+	})
+	reg(C+"WithIsCheckTx", func(ex *Exec, a []Val) Val {
+		b := ex.Branch(a[1].(*Term))
+		return ex.ctxArg(a[0]).with(func(n *CtxV) { n.checkTx = b })
+	})
+	reg(C+"WithIsReCheckTx", func(ex *Exec, a []Val) Val {
+		b := ex.Branch(a[1].(*Term))
+		return ex.ctxArg(a[0]).with(func(n *CtxV) {
+			n.recheck = b
+			if b {
+				n.checkTx = true
+			}
+		})
+	})
+	reg(C+"WithGasMeter", func(ex *Exec, a []Val) Val {
+		iv := a[1].(IfaceV)
+		g, _ := iv.V.(*GasMeterObj)
+		return ex.ctxArg(a[0]).with(func(n *CtxV) { n.gas = g })
+	})
+	reg(C+"WithBlockGasMeter", func(ex *Exec, a []Val) Val {
+		iv := a[1].(IfaceV)
+		g, _ := iv.V.(*GasMeterObj)
+		return ex.ctxArg(a[0]).with(func(n *CtxV) { n.blockGas = g })
+	})
+	reg(C+"WithPriority", func(ex *Exec, a []Val) Val {
+		return ex.ctxArg(a[0]).with(func(n *CtxV) { n.priority = a[1].(*Term) })
+	})
+	reg(C+"WithTxBytes", func(ex *Exec, a []Val) Val {
+		return ex.ctxArg(a[0]).with(func(n *CtxV) { n.txBytes = a[1] })
+	})
+	reg(C+"WithMinGasPrices", func(ex *Exec, a []Val) Val {
+		return ex.ctxArg(a[0]).with(func(n *CtxV) { n.minGas = a[1] })
+	})
+	reg(C+"WithEventManager", func(ex *Exec, a []Val) Val { return ex.ctxArg(a[0]).with(func(n *CtxV) {}) })
+	reg(C+"WithLogger", func(ex *Exec, a []Val) Val { return ex.ctxArg(a[0]).with(func(n *CtxV) {}) })
+	reg(C+"WithKVGasConfig", func(ex *Exec, a []Val) Val { return ex.ctxArg(a[0]).with(func(n *CtxV) {}) })
+	reg(C+"WithTransientKVGasConfig", func(ex *Exec, a []Val) Val { return ex.ctxArg(a[0]).with(func(n *CtxV) {}) })
+	reg(C+"WithValue", func(ex *Exec, a []Val) Val {
+		return ex.ctxArg(a[0]).with(func(n *CtxV) {
+			n.values = append(append([]ctxKV{}, n.values...), ctxKV{a[1], a[2]})
+		})
+	})
+	reg(C+"Value", func(ex *Exec, a []Val) Val {
+		c := ex.ctxArg(a[0])
+		for i := len(c.values) - 1; i >= 0; i-- {
+			if ex.Branch(ex.valEq(c.values[i].k, a[1])) {
+				return c.values[i].v
+			}
+		}
+		return IfaceV{}
+	})
+	reg(C+"CacheContext", func(ex *Exec, a []Val) Val {
+		c := ex.ctxArg(a[0])
+		child := c.ms.clone()
+		parent := c.ms
+		cc := c.with(func(n *CtxV) { n.ms = child; n.events = &EventMgrObj{} })
+		write := FuncV{Name: "writeCache", Native: func(ex *Exec, _ []Val) Val {
+			for k, s := range child.stores {
+				parent.stores[k] = &Store{entries: append([]storeEntry{}, s.entries...)}
+			}
+			return nil
+		}}
+		return TupleV{cc, write}
+	})
+	reg("github.com/cosmos/cosmos-sdk/types.WrapSDKContext", func(ex *Exec, a []Val) Val { return nativeIface(ex.ctxArg(a[0])) })
+	reg("github.com/cosmos/cosmos-sdk/types.UnwrapSDKContext", func(ex *Exec, a []Val) Val {
+		iv, ok := a[0].(IfaceV)
+		if !ok || iv.T == nil {
+			ex.goPanic("UnwrapSDKContext(nil)")
+		}
+		c, ok := iv.V.(*CtxV)
+		if !ok {
+			ex.unmodelled("UnwrapSDKContext of foreign context")
+		}
+		return c
+	})
+
+	// prefix store
+	reg("github.com/cosmos/cosmos-sdk/store/prefix.NewStore", func(ex *Exec, a []Val) Val {
+		iv := a[0].(IfaceV)
+		parent, ok := iv.V.(*StoreHandle)
+		if !ok {
+			ex.unmodelled("prefix.NewStore on foreign store")
+		}
+		p := append(append([]*Term{}, parent.prefix...), ex.bytesOf(a[1])...)
+		return &StoreHandle{ms: parent.ms, name: parent.name, prefix: p}
+	})
+	for _, m := range []string{"Get", "Has", "Set", "Delete", "Iterator", "ReverseIterator"} {
+		m := m
+		reg("(github.com/cosmos/cosmos-sdk/store/prefix.Store)."+m, func(ex *Exec, a []Val) Val {
+			return a[0].(*StoreHandle).Invoke(ex, m, a[1:])
+		})
+	}
+	prefixIter := func(rev bool) Intrinsic {
+		return func(ex *Exec, a []Val) Val {
+			var h *StoreHandle
+			switch x := a[0].(type) {
+			case IfaceV:
+				h, _ = x.V.(*StoreHandle)
+			case *StoreHandle:
+				h = x
+			}
+			if h == nil {
+				ex.unmodelled("KVStorePrefixIterator on foreign store")
+			}
+			p := ex.bytesOf(a[1])
+			sub := &StoreHandle{ms: h.ms, name: h.name, prefix: append(append([]*Term{}, h.prefix...), p...)}
+			it := sub.iterate(ex, nil, nil, false)
+			// keys are reported relative to h (i.e. including p)
+			for i := range it.items {
+				it.items[i].key = append(append([]*Term{}, p...), it.items[i].key...)
+			}
+			if rev {
+				for i, j := 0, len(it.items)-1; i < j; i, j = i+1, j-1 {
+					it.items[i], it.items[j] = it.items[j], it.items[i]
+				}
+			}
+			return nativeIface(it)
+		}
+	}
+	reg("github.com/cosmos/cosmos-sdk/types.KVStorePrefixIterator", prefixIter(false))
+	reg("github.com/cosmos/cosmos-sdk/types.KVStoreReversePrefixIterator", prefixIter(true))
+	reg("github.com/cosmos/cosmos-sdk/store/types.KVStorePrefixIterator", prefixIter(false))
+	reg("github.com/cosmos/cosmos-sdk/store/types.KVStoreReversePrefixIterator", prefixIter(true))
+
+	// events: no-ops
+	const EM = "(*github.com/cosmos/cosmos-sdk/types.EventManager)."
+	reg(EM+"EmitEvent", func(ex *Exec, a []Val) Val { return nil })
+	reg(EM+"EmitEvents", func(ex *Exec, a []Val) Val { return nil })
+	reg(EM+"EmitTypedEvent", func(ex *Exec, a []Val) Val { return IfaceV{} })
+	reg(EM+"EmitTypedEvents", func(ex *Exec, a []Val) Val { return IfaceV{} })
+	zeroRet := func(ex *Exec, a []Val) Val { return nil }
+	_ = zeroRet
+
+	// byte-order helpers
+	reg("github.com/cosmos/cosmos-sdk/types.Uint64ToBigEndian", func(ex *Exec, a []Val) Val {
+		t := a[0].(*Term)
+		bs := make([]*Term, 8)
+		for i := 0; i < 8; i++ {
+			bs[i] = ex.tf.Extract(63-8*i, 56-8*i, t)
+		}
+		return ex.mkBytes(bs)
+	})
+	reg("github.com/cosmos/cosmos-sdk/types.BigEndianToUint64", func(ex *Exec, a []Val) Val {
+		bs := ex.bytesOf(a[0])
+		if len(bs) == 0 {
+			return ex.tf.BVu(0, 64)
+		}
+		if len(bs) < 8 {
+			ex.goPanic("BigEndianToUint64: slice too short")
+		}
+		t := bs[0]
+		for i := 1; i < 8; i++ {
+			t = ex.tf.Concat(t, bs[i])
+		}
+		return t
+	})
+	be := func(n int) Intrinsic {
+		return func(ex *Exec, a []Val) Val {
+			bs := ex.bytesOf(a[len(a)-1])
+			if len(bs) < n {
+				ex.goPanic("binary.BigEndian: index out of range")
+			}
+			t := bs[0]
+			for i := 1; i < n; i++ {
+				t = ex.tf.Concat(t, bs[i])
+			}
+			return t
+		}
+	}
+	reg("(encoding/binary.bigEndian).Uint64", be(8))
+	reg("(encoding/binary.bigEndian).Uint32", be(4))
+	reg("(encoding/binary.bigEndian).Uint16", be(2))
+	put := func(n int) Intrinsic {
+		return func(ex *Exec, a []Val) Val {
+			dst := a[len(a)-2].(SliceV)
+			t := a[len(a)-1].(*Term)
+			if dst.Len < n {
+				ex.goPanic("binary.BigEndian.Put: index out of range")
+			}
+			for i := 0; i < n; i++ {
+				ex.store(dst.P.sub(dst.Off+i), ex.tf.Extract(8*(n-i)-1, 8*(n-i)-8, t))
+			}
+			return nil
+		}
+	}
+	reg("(encoding/binary.bigEndian).PutUint64", put(8))
+	reg("(encoding/binary.bigEndian).PutUint32", put(4))
+	reg("(encoding/binary.bigEndian).PutUint16", put(2))
+	reg("(encoding/binary.bigEndian).AppendUint64", func(ex *Exec, a []Val) Val {
+		t := a[len(a)-1].(*Term)
+		bs := make([]Val, 8)
+		for i := 0; i < 8; i++ {
+			bs[i] = ex.tf.Extract(63-8*i, 56-8*i, t)
+		}
+		return ex.callBuiltin("append", []Val{a[len(a)-2], ex.newSlice(bs, 8)}, nil)
+	})
+}
+
+var _ = big.NewInt
+
 func (ex *Exec) blobLen(b BlobV) Val {
-	// length of marshalled bytes is not modelled precisely: non-empty
+	// length of marshalled bytes is not modelled precisely: treated as non-empty
 	return ex.tf.BVu(1, 64)
 }
